@@ -138,6 +138,8 @@ def _shortcut_part(c, dy, dx):
         h2 = TWO * half(k)
         if (a == d and op == "<" and r == -h2) or (a == h2 and op == "<" and r == d):  # d < -2h  or  d > 2h (stored as 2h < d)
             return True
+        if a == h2 and op == "<" and r == Poly.fn("abs", d):  # |d| > 2h: both sides of this axis in one test
+            return True
     return False
 
 
@@ -333,10 +335,9 @@ def diag_rule(ctx, p, K):
     ctx.require_count(rule, "call sites of curvature_matrix_with_added_to_diag_from", len(sites), 3)
     for g, c in sites:
         b = {k: norm_text(v) for k, v in wire.kw(c, f).items()}
-        br = wire.enclosing_branches(g, c)
-        tests = [norm_text(i.test) for i, inbody in br if inbody]
+        tests = wire.path_conds(g, c)
         lst = b.get("no_regularization_index_list")
-        nonempty = lst is not None and any(t in (canon_src(f"len({lst}) > 0"), canon_src(f"add_to_curvature_diag and len({lst}) > 0"), canon_src(f"len({lst}) > 0 and add_to_curvature_diag"), canon_src(f"len({lst}) != 0")) for t in tests)
+        nonempty = lst is not None and (wire.cond_holds(tests, f"len({lst}) > 0") or wire.cond_holds(tests, f"len({lst}) != 0"))
         val_ok = b.get("value", "").endswith("no_regularization_add_to_curvature_diag_value")
         lst_ok = lst in ("self.no_regularization_index_list", "no_regularization_index_list")
         ctx.ob(rule, f"{g.key}:diag-call", nonempty and val_ok and lst_ok, where=g, node=c, construct=f"under {tests}; args {b}",
